@@ -1,7 +1,8 @@
 #!/bin/bash
 # applies every seeded change to /repo in turn, runs the checks named in its meta.json, reverts; prints one line per change
 cd /verif
-for d in seeded/*/; do
+for d in ${@:-seeded/*/}; do
+  d=${d%/}/
   id=$(basename $d)
   checks=$(python3 -c "import json;print(' '.join(json.load(open('$d/meta.json'))['detected_by']))")
   git -C /repo apply /verif/$d/patch.diff || { echo "$id APPLY-FAIL"; continue; }
